@@ -559,15 +559,20 @@ public:
     double* SX=buffer+offset;
     double alpha;
     double range = t_end - t_start;
-    //averages of sin(alpha*t) and cos(alpha*t) over [t_start,t_end]; for
-    //coincident levels (alpha==0) the closed form is 0/0, so use its limit
+    //averages of sin(alpha*t) and cos(alpha*t) over [t_start,t_end], written as the value at the
+    //midpoint times sinc(alpha*range/2): the difference quotient (cos(alpha*t_start)-cos(alpha*t_end))/(alpha*range)
+    //loses all accuracy to cancellation when alpha*range is small (nearly coincident levels or a
+    //short interval) and is 0/0 for coincident levels
+    double t_mid = t_start + 0.5*range;
+    auto sinc_half=[=](double alpha)->double{
+      double y=0.5*alpha*range;
+      return(y==0 ? 1. : sin(y)/y);
+    };
     auto avg_sin=[=](double alpha)->double{
-      double x=alpha*range;
-      return(x==0 ? sin(alpha*t_start) : (cos(alpha*t_start) - cos(alpha*t_end))/x);
+      return(sin(alpha*t_mid)*sinc_half(alpha));
     };
     auto avg_cos=[=](double alpha)->double{
-      double x=alpha*range;
-      return(x==0 ? cos(alpha*t_start) : (sin(alpha*t_end) - sin(alpha*t_start))/x);
+      return(cos(alpha*t_mid)*sinc_half(alpha));
     };
 #include "SU_inc/PreEvolutionSelectAvgRange.txt"
   }
